@@ -253,6 +253,21 @@ def main(tier):
                                                                                      "same_vm_after_edit": dec[0], "other_vm_with_copied_config": dec[1], "fresh_vm": dec[2]})
             else:
                 run.nontriv(("langseq", l1, l2, s2))
+        # ---- … and it is the CONTEXT's: what some other part of the host set through the package-level SetParseErrorLanguage does not
+        #      reach a context, whichever of the three settings the context has (the default one included), also through RunExpr
+        gl = [(g_, v_, s_) for g_ in (0, 1, 2) for v_ in (0, 1, 2) if g_ != v_ for s_ in BAD[:7]]
+        go_ = go_child().run([f"errlangglobal {g_} {v_} {hx(s_)}" for g_, v_, s_ in gl])
+        for (g_, v_, s_), o in zip(gl, go_):
+            run.evaluations += 1
+            parts = o.split(" || ")
+            if len(parts) != 3:
+                run.violation("errfmt:language-sequence-crashed", {"package_level_language": g_, "language": v_, "input": s_, "implementation": o[:300]})
+            elif parts[0] != parts[2] or (parts[1] != parts[2] and s_ != ""):
+                dec = [unhx(x).decode("utf-8", "replace") if x != "-" else None for x in parts]
+                run.violation("errfmt:message-language-taken-from-package-level-state", {"package_level_language": g_, "language": v_, "input": s_,
+                              "under_foreign_package_setting": dec[0], "through_RunExpr": dec[1], "package_setting_at_default": dec[2]})
+            else:
+                run.nontriv(("langglobal", g_, v_, s_))
     return run.finish(
         trusted=["Lean 4.33 kernel", "axioms: propext, Classical.choice, Quot.sound", "Go harness + Lean driver",
                  "which offset the packrat engine reports (maxFailPos) is taken from the implementation; the theorems cover every "
